@@ -114,6 +114,9 @@ class VMDK(AlignedStream):
     def _read(self, offset: int, length: int) -> bytes:
         log.debug("VMDK::_read(0x%x, 0x%x)", offset, length)
 
+        # The stream may ask for a full aligned chunk that runs past the end of the disk
+        length = min(length, self.size - offset)
+
         sector = offset // SECTOR_SIZE
         count = (length + SECTOR_SIZE - 1) // SECTOR_SIZE
 
